@@ -18,7 +18,7 @@ func init() {
 		Doc: "the layer table exists after the layering phase on every path: the pipeline entry point (a Process method of a phase package) that stores DGraph.Layers on some path stores it (directly or through a callee) on EVERY path from its entry to a normal return - panicking exits excluded; " +
 			"later phases index g.Layers unconditionally (g.Layers[0], g.Layers[n.Layer]), so an early return that skips the construction (a short-circuit for one-node components) makes them panic. " +
 			"Must-pass-through check on the SSA control-flow graph: the return blocks are not reachable from the entry once the establishing blocks are removed",
-		Floor: 1,
+		Floor: 2,
 		Ctl:   []string{"internal__phase2__post1.go.txt"},
 		Run:   runPost1,
 	})
@@ -141,6 +141,111 @@ func runPost1(m *Model, r *RuleResult) {
 		}
 	}
 	r.stat("phase_entry_points_establishing_layers", n)
+	post1Merge(m, r)
+}
+
+// post1Merge: the long-edge merge undoes phase 3's edge breaking; it must run on every path of the routing phase, whatever router is
+// selected (added after seeded change C02h: the no-op router returned before the merge, so the output listed edge fragments between
+// helper nodes instead of the input's edges). Exits under element-count / nil tests are tolerated.
+func post1Merge(m *Model, r *RuleResult) {
+	merge := m.anchorMerge()
+	if merge == nil {
+		r.undecided("merge-on-every-path", "-", "the long-edge merge of the routing phase", "not found")
+		return
+	}
+	for _, f := range m.Src {
+		if len(f.Blocks) == 0 || shortPkg(pkgPathOf(f)) != "internal/phase5" || f.Parent() != nil {
+			continue
+		}
+		isProc := f.Name() == "Process" && f.Signature.Recv() != nil
+		ctl := m.FuncIsPosctl(f)
+		if !isProc && !(ctl && strings.Contains(f.Name(), "Post1")) {
+			continue
+		}
+		est := map[*ssa.BasicBlock]bool{}
+		eachInstr(f, func(in ssa.Instruction) {
+			if ci, ok := in.(ssa.CallInstruction); ok {
+				c := ci.Common().StaticCallee()
+				if c == nil {
+					return
+				}
+				if c == merge || (pkgPathOf(c) == pkgPathOf(f) && len(staticCalls(c, func(x *ssa.Function) bool { return x == merge })) > 0 && mustCall(c, merge)) {
+					est[in.Block()] = true
+				}
+			}
+		})
+		key := "merge-on-every-path:" + funcKey(f)
+		if len(est) == 0 {
+			r.add(Obligation{Key: key, Pos: m.Pos(f.Pos()), Desc: "the routing phase merges the broken long edges", Verdict: "violation", Detail: "no call of " + merge.Name() + ": the output lists edge fragments between helper nodes", Control: ctl})
+			continue
+		}
+		esc := escapeAvoiding(m, f, est)
+		if esc == "" {
+			r.add(Obligation{Key: key, Pos: m.Pos(f.Pos()), Desc: "every path to a normal return of the routing phase merges the broken long edges first", Verdict: "holds", Control: ctl})
+		} else {
+			r.add(Obligation{Key: key, Pos: m.Pos(f.Pos()), Desc: "every path to a normal return of the routing phase must merge the broken long edges", Verdict: "violation",
+				Detail: esc + ": on this path the fragments that phase 3 made of every long edge stay in the edge list, and the output has edges between helper nodes instead of the input's edges", Control: ctl})
+		}
+	}
+}
+
+// mustCall: every entry->return path of f calls target.
+func mustCall(f, target *ssa.Function) bool {
+	est := map[*ssa.BasicBlock]bool{}
+	eachInstr(f, func(in ssa.Instruction) {
+		if ci, ok := in.(ssa.CallInstruction); ok && ci.Common().StaticCallee() == target {
+			est[in.Block()] = true
+		}
+	})
+	return escapeAvoiding(nil, f, est) == ""
+}
+
+// escapeAvoiding: a path from entry to a normal return that avoids the blocks in est and passes no element-count / nil test; "" if none.
+func escapeAvoiding(m *Model, f *ssa.Function, est map[*ssa.BasicBlock]bool) string {
+	type item struct {
+		b    *ssa.BasicBlock
+		from *item
+	}
+	seen := map[*ssa.BasicBlock]bool{}
+	queue := []*item{{b: f.Blocks[0]}}
+	for len(queue) > 0 {
+		it := queue[0]
+		queue = queue[1:]
+		if seen[it.b] || est[it.b] {
+			continue
+		}
+		seen[it.b] = true
+		if ret, isRet := it.b.Instrs[len(it.b.Instrs)-1].(*ssa.Return); isRet {
+			trivial, sawIf := false, false
+			var steps []string
+			for x := it; x != nil && x.from != nil; x = x.from {
+				if iff, ok := x.from.b.Instrs[len(x.from.b.Instrs)-1].(*ssa.If); ok {
+					if !sawIf && isCountOrNilTest(iff.Cond, 0) {
+						trivial = true // the branch that decides for this return is an element-count / nil test
+					}
+					sawIf = true
+					if m != nil {
+						br := "true"
+						if len(x.from.b.Succs) == 2 && x.from.b.Succs[1] == x.b {
+							br = "false"
+						}
+						steps = append([]string{fmt.Sprintf("%s is %s at %s", iff.Cond.String(), br, m.Pos(iff.Cond.Pos()))}, steps...)
+					}
+				}
+			}
+			if trivial {
+				continue
+			}
+			if m == nil {
+				return "escape"
+			}
+			return "return at " + m.Pos(ret.Pos()) + " reached via [" + strings.Join(steps, "; ") + "]"
+		}
+		for _, s := range it.b.Succs {
+			queue = append(queue, &item{b: s, from: it})
+		}
+	}
+	return ""
 }
 
 // storesInPkg: f, or a function of f's package reachable from f through static calls, stores the field loc directly.
